@@ -37,7 +37,7 @@ func EncryptBySM4CBC(plaintext, password []byte) ([]byte, error) {
 		return nil, err
 	}
 	pkcs7 := padding.NewPKCS7Padding(uint(mode.BlockSize()))
-	plaintext = pkcs7.Pad(plaintext)
+	plaintext = pkcs7.Pad(plaintext[:len(plaintext):len(plaintext)]) // never pad into the caller's spare capacity
 	ciphertext := make([]byte, len(plaintext))
 	mode.CryptBlocks(ciphertext, plaintext)
 	return ciphertext, nil
